@@ -256,7 +256,50 @@ def check_set_backend():
             sys.modules.pop(v, None)
 
 
+def check_env_read_each_call():
+    """One Backend object, several calls, the environment changing in between:
+    every call must see the environment as it is at that moment."""
+    import mido.backends.backend as bb
+    REC.imports, REC.calls = [], []
+    REC.native, REC.getdev = False, True
+    saved_env = dict(os.environ)
+    if _FINDER not in sys.meta_path:
+        sys.meta_path.insert(0, _FINDER)
+    try:
+        for k in ('MIDO_BACKEND', 'MIDO_DEFAULT_INPUT', 'MIDO_DEFAULT_OUTPUT', 'MIDO_DEFAULT_IOPORT'):
+            os.environ.pop(k, None)
+        be = bb.Backend(MODNAMES['mod'])
+        steps = [({'MIDO_DEFAULT_INPUT': 'one'}, 'open_input', [('Input', 'one')]),
+                 ({'MIDO_DEFAULT_INPUT': 'two'}, 'open_input', [('Input', 'two')]),
+                 ({'MIDO_DEFAULT_INPUT': None}, 'open_input', [('Input', None)]),
+                 ({'MIDO_DEFAULT_IOPORT': 'io', 'MIDO_DEFAULT_OUTPUT': 'out'}, 'open_ioport', [('Input', 'io'), ('Output', 'io')]),
+                 ({'MIDO_DEFAULT_IOPORT': None}, 'open_ioport', [('Input', None), ('Output', 'out')]),
+                 ({'MIDO_DEFAULT_OUTPUT': None, 'MIDO_DEFAULT_INPUT': 'three'}, 'open_output', [('Output', None)]),
+                 ({}, 'open_ioport', [('Input', 'three'), ('Output', None)])]
+        for env, call, exp in steps:
+            for k, v in env.items():
+                if v is None:
+                    os.environ.pop(k, None)
+                else:
+                    os.environ[k] = v
+            REC.calls = []
+            getattr(be, call)()
+            got = [(c[1], c[2]) for c in REC.calls]
+            if got != exp:
+                return '%s after the environment changed to %r constructed %r, expected %r' % (call, env, got, exp)
+        return None
+    except Exception as e:
+        return 'sequence raised %r' % (e,)
+    finally:
+        os.environ.clear()
+        os.environ.update(saved_env)
+        for v in MODNAMES.values():
+            sys.modules.pop(v, None)
+
+
 def replay(case):
+    if case.get('kind') == 'env_each_call':
+        return check_env_read_each_call()
     if case.get('kind') == 'set_backend':
         return check_set_backend()
     r = run_cell(case['row'])
@@ -285,6 +328,10 @@ CHECK_DEADLOCK FALSE
     ctx.replayed += 1
     if r:
         ctx.violation('backend/set_backend', {'kind': 'set_backend'}, r)
+    r = check_env_read_each_call()
+    ctx.replayed += 1
+    if r:
+        ctx.violation('backend/environment-cached', {'kind': 'env_each_call'}, r)
     ctx.exhaustive = True
     ctx.assumptions += [
         'backend modules are recording fakes served by a meta-path finder; DEFAULT_BACKEND is patched to a fake so that the default can be observed',
